@@ -6,6 +6,7 @@ import FimVerif.Proofs.Lemmas.C08Spec
 import FimVerif.Proofs.Lemmas.C08Owned
 import FimVerif.Proofs.Lemmas.C08Ports
 import FimVerif.Proofs.Lemmas.C08Shared
+import FimVerif.Proofs.Lemmas.C08Prune
 /-!
 # C08 — removal and disconnection delete exactly the owned structure and nothing else
 
@@ -20,7 +21,7 @@ functions they are made of), with the handle caches involved -/
 inductive Op
   | removeNode (n : Nat) | removeFacility (n : Nat) | removeSwitch (n : Nat)
   | removeComponent (c : Nat) | removeNs (s : Nat) | removeLink (l : Nat)
-  | disconnect (h : List Nat) (i : Nat) | unpeer (ha hb : List Nat) | removeChild (h : List Nat) (p c : Nat)
+  | disconnect (h : List IfH) (i : Nat) | unpeer (ha hb : List IfH) | removeChild (h : List IfH) (p c : Nat)
   | prune (nodes comps nss ifs : List Nat)
   | gRemoveCp (x : Nat) (dp : Bool) | gRemoveNs (x : Nat) | gRemoveComp (x : Nat) | gRemoveNode (x : Nat) | gRemoveLink (x : Nat)
 
@@ -200,31 +201,48 @@ handle of `s` lists. The shape hypotheses say that the ServicePort removed is a 
 that the service itself is not among what is deleted. -/
 
 /-- **handle_fresh (`disconnect_interface`)** -/
-theorem handle_fresh_disconnect (g : G) (h : List Nat) (s i : Nat) (g' : G) (h' : List Nat)
+theorem handle_fresh_disconnect (g : G) (h : List IfH) (s i : Nat) (g' : G) (h' : List IfH)
     (hrun : disconnect g h i = .ok (g', h'))
     (hshape : ∀ p ∈ spPeers g i, g.nbrs p .connects .cp = [] ∧ (cpDel g p true).contains s = false)
-    (hh : ∀ y, y ∈ h ↔ y ∈ freshIfs g s) :
-    ∀ y, y ∈ h' ↔ y ∈ freshIfs g' s := disconnect_fresh g h s i g' h' hrun hshape hh
+    (hh : ∀ y, y ∈ hIds h ↔ y ∈ freshIfs g s) :
+    ∀ y, y ∈ hIds h' ↔ y ∈ freshIfs g' s := disconnect_fresh g h s i g' h' hrun hshape hh
+
+/-- moreover the surviving entries are the old entries, names included: the list is pruned by node id only -/
+theorem handle_disconnect_entries (g : G) (h : List IfH) (i : Nat) (g' : G) (h' : List IfH)
+    (hrun : disconnect g h i = .ok (g', h')) :
+    h' = h ∨ ∃ p, spPeers g i = [p] ∧ h' = h.filter (fun x => x.id != p) := by
+  obtain ⟨r, hr, heq⟩ := map_ok hrun
+  simp only [Prod.mk.injEq] at heq
+  obtain ⟨rfl, rfl⟩ := heq
+  unfold disconnectG at hr
+  split at hr
+  · split at hr
+    · cases hr; exact Or.inl rfl
+    · rename_i p hsp
+      obtain ⟨g1, _, rfl⟩ := map_ok hr
+      exact Or.inr ⟨p, hsp, rfl⟩
+    · cases hr
+  · cases hr
 
 /-- **handle_fresh (`remove_child_interface`)** — holds since the repairs 5785808 / 37318e4 -/
-theorem handle_fresh_removeChild (g : G) (h : List Nat) (p c : Nat) (hk : g.kind? p = some kDedicatedPort) (hc : g.has c = true)
+theorem handle_fresh_removeChild (g : G) (h : List IfH) (p c : Nat) (hk : g.kind? p = some kDedicatedPort) (hc : g.has c = true)
     (h1 : SepDiscSeq g [] (deepIfs g [c]) = true) (h2 : Sep g ((deepIfs g [c]).flatMap (discDel g)) c false = true)
     (hp : (childDel g c).contains p = false) (hD : ∀ y ∈ freshIfs g p, y ∈ childDel g c ↔ y = c)
-    (hh : ∀ y, y ∈ h ↔ y ∈ freshIfs g p) :
-    ∃ g' h', removeChild g h p c = .ok (g', h') ∧ ∀ y, y ∈ h' ↔ y ∈ freshIfs g' p :=
+    (hh : ∀ y, y ∈ hIds h ↔ y ∈ freshIfs g p) :
+    ∃ g' h', removeChild g h p c = .ok (g', h') ∧ ∀ y, y ∈ hIds h' ↔ y ∈ freshIfs g' p :=
   removeChild_fresh g h p c hk hc h1 h2 hp hD hh
 
 /-- **handle_fresh (`unpeer`)**, both handles — holds since the repairs 59b2237 / 76b13f8 -/
-theorem handle_fresh_unpeer (g : G) (ha hb : List Nat) (a b i p : Nat) (g' : G) (ha' hb' : List Nat)
+theorem handle_fresh_unpeer (g : G) (ha hb : List IfH) (a b i p : Nat) (g' : G) (ha' hb' : List IfH)
     (hfind : findPeering g ha hb = some (i, p))
     (hrun : unpeer g ha hb = .ok (g', ha', hb'))
     (hi : cpFamily g i true = [i]) (hpf : cpFamily (g.minus (cpDel g i true)) p true = [p])
     (hsa : (cpDel g i true).contains a = false) (hsb : (cpDel g i true).contains b = false)
     (hsa2 : (cpDel (g.minus (cpDel g i true)) p true).contains a = false)
     (hsb2 : (cpDel (g.minus (cpDel g i true)) p true).contains b = false)
-    (hpa : p ∉ ha) (hib : i ∉ hb)
-    (hha : ∀ y, y ∈ ha ↔ y ∈ freshIfs g a) (hhb : ∀ y, y ∈ hb ↔ y ∈ freshIfs g b) :
-    (∀ y, y ∈ ha' ↔ y ∈ freshIfs g' a) ∧ (∀ y, y ∈ hb' ↔ y ∈ freshIfs g' b) :=
+    (hpa : p ∉ hIds ha) (hib : i ∉ hIds hb)
+    (hha : ∀ y, y ∈ hIds ha ↔ y ∈ freshIfs g a) (hhb : ∀ y, y ∈ hIds hb ↔ y ∈ freshIfs g b) :
+    (∀ y, y ∈ hIds ha' ↔ y ∈ freshIfs g' a) ∧ (∀ y, y ∈ hIds hb' ↔ y ∈ freshIfs g' b) :=
   unpeer_fresh g ha hb a b i p g' ha' hb' hfind hrun hi hpf hsa hsb hsa2 hsb2 hpa hib hha hhb
 
 /-- two peered services `1`, `2` with ports `3`, `4` joined by link `5` -/
@@ -232,10 +250,20 @@ def exPeer : G :=
   { nodes := [⟨1, .ns, 0, "a"⟩, ⟨2, .ns, 0, "b"⟩, ⟨3, .cp, 1, "a-b"⟩, ⟨4, .cp, 1, "b-a"⟩, ⟨5, .link, 0, "l"⟩],
     edges := [⟨1, 3, .connects, ""⟩, ⟨2, 4, .connects, ""⟩, ⟨5, 3, .connects, ""⟩, ⟨5, 4, .connects, ""⟩] }
 
-example : findPeering exPeer [3] [4] = some (3, 4) := by decide
-example : (unpeer exPeer [3] [4]).toOption.map (fun r => (r.1.nodes.map (·.id), r.2)) = some ([1, 2], [], []) := by decide
+example : findPeering exPeer [⟨3, 0⟩] [⟨4, 0⟩] = some (3, 4) := by decide
+example : (unpeer exPeer [⟨3, 0⟩] [⟨4, 0⟩]).toOption.map (fun r => (r.1.nodes.map (·.id), r.2)) = some ([1, 2], [], []) := by decide
 example : ∀ p ∈ spPeers exG 14, exG.nbrs p .connects .cp = [] ∧ (cpDel exG p true).contains 20 = false := by decide
 
+
+/-- service `1` with two ports `2`, `3` carrying the *same name* (code 7) joined by links `8`, `9` to interfaces `5`, `6`:
+disconnecting `5` drops only the port `2` from the handle — a prune keyed by name would drop both -/
+def exNames : G :=
+  { nodes := [⟨1, .ns, 0, "s"⟩, ⟨2, .cp, 1, "n1-v100"⟩, ⟨3, .cp, 1, "n1-v100"⟩, ⟨5, .cp, 0, "v100"⟩, ⟨6, .cp, 0, "v100"⟩,
+              ⟨8, .link, 0, ""⟩, ⟨9, .link, 0, ""⟩],
+    edges := [⟨1, 2, .connects, ""⟩, ⟨1, 3, .connects, ""⟩, ⟨8, 2, .connects, ""⟩, ⟨8, 5, .connects, ""⟩,
+              ⟨9, 3, .connects, ""⟩, ⟨9, 6, .connects, ""⟩] }
+
+example : (disconnect exNames [⟨2, 7⟩, ⟨3, 7⟩] 5).toOption.map (fun r => (r.2, freshIfs r.1 1)) = some ([⟨3, 7⟩], [3]) := by decide
 
 /-! ## `remove_exact`: against the declarative ownership relation
 
@@ -308,11 +336,11 @@ theorem remove_exact_link (g : G) (l : Nat) (hP : InvPeer g = true) (hc : g.cls?
   ⟨_, removeLink_exact g l hc h, mem_linkApiDel_iff_owned g hP l hc⟩
 
 /-- **remove_exact** (`Interface.remove_child_interface`), with the handle -/
-theorem remove_exact_child (g : G) (hl : List Nat) (p c : Nat) (hP : InvPeer g = true)
+theorem remove_exact_child (g : G) (hl : List IfH) (p c : Nat) (hP : InvPeer g = true)
     (hk : g.kind? p = some kDedicatedPort) (hc : g.cls? c = some .cp) (hs : isSub g c = true)
     (hkc : g.kind? c ≠ some kDedicatedPort)
     (h1 : SepDiscSeq g [] (deepIfs g [c]) = true) (h2 : Sep g ((deepIfs g [c]).flatMap (discDel g)) c false = true) :
-    ∃ D, removeChild g hl p c = .ok (g.minus D, hl.filter (fun x => x != c)) ∧ ∀ y, y ∈ D ↔ Owned g c y := by
+    ∃ D, removeChild g hl p c = .ok (g.minus D, hDrop hl c) ∧ ∀ y, y ∈ D ↔ Owned g c y := by
   have hhas : g.has c = true := by
     simp only [G.cls?, G.has] at hc ⊢; cases hf : g.find c <;> simp_all
   exact ⟨_, removeChild_closed g hl p c hk hhas h1 h2, mem_childDel_iff_owned g hP c hc hs hkc⟩
@@ -359,5 +387,39 @@ def exShared : G :=
 /-- the closed-form hypothesis fails here, the general one holds, and the link is deleted when its second inside end goes -/
 example : SepNs exShared [] 1 = false ∧ SepFamSeq exShared [1] (exShared.nbrs 1 .connects .cp) = true ∧
     seqDelA exShared [1] (exShared.nbrs 1 .connects .cp) = [1, 2, 3, 9] := by decide
+
+/-! ## `prune_exact`
+
+`prune` removes the marked nodes, then — unless already gone — the marked components, services and interfaces, each
+through the repaired user-level call.  `pruneDel` is the fold of the closed forms over the pre-state (an element that
+is already in the set deleted so far is skipped, as `still_present` does); `HypPrune` chains the separation
+hypotheses along the four loops (decidable; evaluated by the driver on every prune case). -/
+
+/-- **prune_exact**: the result is the pre-state minus `pruneDel` -/
+theorem prune_exact (g : G) (ns cs ss is : List Nat) (h : HypPrune g ns cs ss is = true) :
+    prune g ns cs ss is = .ok (g.minus (pruneDel g ns cs ss is)) := prune_closed g ns cs ss is h
+
+/-- **prune deletes nothing but owned structure of marked elements** (declarative form, under the invariants) -/
+theorem prune_sound (g : G) (hI : InvCP g = true) (hP : InvPeer g = true) (ns cs ss is : List Nat)
+    (hn : ∀ n ∈ ns, g.cls? n = some .node) (hc : ∀ c ∈ cs, g.cls? c = some .comp) (hs : ∀ s ∈ ss, g.cls? s = some .ns)
+    (hi : ∀ i ∈ is, g.cls? i = some .cp ∧ isSub g i = false)
+    (y : Nat) (h : y ∈ pruneDel g ns cs ss is) : ∃ x, (x ∈ ns ∨ x ∈ cs ∨ x ∈ ss ∨ x ∈ is) ∧ Owned g x y := by
+  rcases pruneDel_sound g ns cs ss is y h with ⟨n, h1, h2⟩ | ⟨c, h1, h2⟩ | ⟨s, h1, h2⟩ | ⟨i, h1, h2⟩
+  · exact ⟨n, Or.inl h1, (mem_nodeApiDel_iff_owned g hI hP n (hn n h1) y).mp h2⟩
+  · exact ⟨c, Or.inr (Or.inl h1), (mem_compApiDel_iff_owned g hI hP c (hc c h1) y).mp h2⟩
+  · exact ⟨s, Or.inr (Or.inr (Or.inl h1)), (mem_nsApiDel_iff_owned g hI hP s (hs s h1) y).mp h2⟩
+  · exact ⟨i, Or.inr (Or.inr (Or.inr h1)), (mem_ifaceApiDel_iff_owned g hI hP i (hi i h1).1 (hi i h1).2 y).mp h2⟩
+
+/-- **every marked node goes with all it owns, every other marked element is gone.**  Not proved (`_partial`): that the
+whole owned structure of a marked component / service / interface that was *skipped* because an enclosing marked element
+had already taken it is gone too (it is, whenever that enclosing element owns it; the oracle checks it). -/
+theorem prune_covers_partial (g : G) (hI : InvCP g = true) (hP : InvPeer g = true) (ns cs ss is : List Nat)
+    (hn : ∀ n ∈ ns, g.cls? n = some .node) :
+    (∀ n ∈ ns, ∀ y, Owned g n y → y ∈ pruneDel g ns cs ss is) ∧
+    (∀ x, x ∈ cs ∨ x ∈ ss ∨ x ∈ is → x ∈ pruneDel g ns cs ss is ∨ g.has x = false) :=
+  ⟨fun n h1 y ho => (pruneDel_covers g ns cs ss is).1 n h1 y ((mem_nodeApiDel_iff_owned g hI hP n (hn n h1) y).mpr ho),
+   (pruneDel_covers g ns cs ss is).2⟩
+
+example : HypPrune exG [10] [11] [] [14] = true ∧ sameSet (pruneDel exG [10] [11] [] [14]) [10, 11, 12, 13, 14, 15, 30, 21] = true := by decide
 
 end FimVerif.C08
